@@ -1,9 +1,14 @@
 package props
 
 import (
+	"bytes"
+	"fmt"
 	"strings"
 
+	cedar "github.com/cedar-policy/cedar-go"
+
 	"verif/internal/bridge"
+	"verif/internal/gen"
 	"verif/internal/model"
 	"verif/internal/mon"
 	"verif/internal/render"
@@ -51,6 +56,73 @@ func c08pairs(c *mon.Ctx) {
 		w.Count("directed pair " + o.name + " over " + in.name)
 		if c08roundtrip(w, w.Rand(), bridge.ToPolicy(mp), mp, "programmatic") {
 			w.NonTrivial(render.CanonPolicy(mp))
+		}
+	})
+}
+
+// c08retryWriter accepts every write except the calls listed, which it refuses whole.
+type c08retryWriter struct {
+	calls  int
+	failAt map[int]bool
+	out    bytes.Buffer
+}
+
+func (f *c08retryWriter) Write(b []byte) (int, error) {
+	f.calls++
+	if f.failAt[f.calls-1] {
+		return 0, fmt.Errorf("injected write failure")
+	}
+	return f.out.Write(b)
+}
+
+// c08encoderRetry: a list of policies is written through ONE cedar.Encoder to a writer that
+// refuses some calls; the caller retries the refused policy. What the writer accepted is the
+// rendering of the list: it parses back to the same policies in the same order.
+func c08encoderRetry(c *mon.Ctx) {
+	c.ParFor("encoder-retry", c.N(1500, 20000), func(w *mon.W, i int) {
+		r := w.Rand()
+		n := 1 + r.Intn(5)
+		var pols []*cedar.Policy
+		var texts []string
+		for j := 0; j < n; j++ {
+			mp := gen.RandPolicy(r, gen.ExprCfg{PIll: 0.05, SafeDT: true, WellFormedExt: true}, 2)
+			sanitizePolicy(mp)
+			cp := NewPolicy(bridge.ToPolicy(mp))
+			pols, texts = append(pols, cp), append(texts, string(cp.MarshalCedar()))
+		}
+		fw := &c08retryWriter{failAt: map[int]bool{}}
+		for k := 0; k < 1+r.Intn(2); k++ {
+			fw.failAt[r.Intn(n+2)] = true
+		}
+		enc := cedar.NewEncoder(fw)
+		refused := 0
+		for _, p := range pols {
+			for attempt := 0; attempt < 4; attempt++ {
+				if err := enc.Encode(p); err == nil {
+					break
+				}
+				refused++
+			}
+		}
+		w.Evals(1)
+		w.Count(fmt.Sprintf("encoder stream with %d refused writes", min(refused, 2)))
+		wit := map[string]any{"policies": texts, "stream": fw.out.String(), "refused_writes": refused}
+		dec := cedar.NewDecoder(bytes.NewReader(fw.out.Bytes()))
+		for j := 0; ; j++ {
+			var p cedar.Policy
+			if err := dec.Decode(&p); err != nil {
+				if j != n {
+					w.Violation("Encoder->Decoder stream yields a different number of policies [after refused writes]", fmt.Sprintf("%d policies encoded (each retried until accepted), %d decoded before %v", n, j, err), wit)
+				}
+				break
+			}
+			if j >= n || string(p.MarshalCedar()) != texts[j] {
+				w.Violation("Encoder->Decoder round trip changes a policy or the order [after refused writes]", fmt.Sprintf("policy %d differs after the stream round trip", j), wit)
+				break
+			}
+		}
+		if refused > 0 {
+			w.NonTrivial(fw.out.String())
 		}
 	})
 }
